@@ -20,8 +20,10 @@ use bitar::{
 };
 
 async fn file_size(file: &mut File) -> Result<u64, std::io::Error> {
+    let size = file.seek(SeekFrom::End(0)).await?;
+    // Leave the file positioned at its start; the output is scanned from the current position.
     file.seek(SeekFrom::Start(0)).await?;
-    file.seek(SeekFrom::End(0)).await
+    Ok(size)
 }
 
 async fn file_checksum(file: &mut File) -> Result<HashSum, std::io::Error> {
